@@ -1,11 +1,23 @@
 #!/bin/bash
-# tools/verify_seeds.sh [ids...]: every kept seeded change must (a) still apply to /repo HEAD, (b) be reported by the quick check.
+# tools/verify_seeds.sh [ids...]: every kept seeded change must (a) still apply to /repo HEAD, (b) pass the unedited test suite,
+# (c) be reported (exit 1) by the quick check - restricted to the conditions its meta.json names in "detected_by" (FULL=1: the whole check).
 cd /repo; ids=${@:-$(ls /verif/seeded)}
 for id in $ids; do
   wt=/var/tmp/seedwt-$id; prop=${id%%-*}; rm -rf $wt; git worktree prune
   git worktree add -q --detach $wt HEAD || { echo "$id worktree failed"; continue; }
   if ! git -C $wt apply /verif/seeded/$id/patch.diff 2>/dev/null; then echo "$id PATCH-DOES-NOT-APPLY"; git worktree remove --force $wt; continue; fi
-  (cd /verif && VF_REPO=$wt bin/check $prop > /var/tmp/seedcheck-$id.log 2>&1); rc=$?
-  echo "$id check_rc=$rc $(grep -c '^VIOLATION' /var/tmp/seedcheck-$id.log) violation lines"
+  only=$(cd /verif && .venv/bin/python - $id $prop <<'PY'
+import json, sys, re, importlib
+sys.path.insert(0, "/verif"); sys.path.insert(0, "/repo/src")
+m = json.load(open("/verif/seeded/%s/meta.json" % sys.argv[1]))
+mod = importlib.import_module("harness." + sys.argv[2].lower())
+names = [c.name for c in mod.CONDITIONS if re.search(r"\b%s\b" % re.escape(c.name), m.get("detected_by", ""))]
+print(",".join(names))
+PY
+)
+  args=""; [ -n "$only" ] && [ -z "$FULL" ] && args="--only $only"
+  demo=$(cd $wt && PYTHONPATH=$wt/src /venv/bin/python /verif/seeded/$id/demo.py >/dev/null 2>&1; echo $?)
+  (cd /verif && VF_REPO=$wt bin/check $prop $args > /var/tmp/seedcheck-$id.log 2>&1); rc=$?
+  echo "$id demo_rc=$demo check_rc=$rc $(grep -c '^VIOLATION' /var/tmp/seedcheck-$id.log) violation lines [$args]"
   git worktree remove --force $wt
 done
